@@ -35,7 +35,7 @@ def harness_sources():
                         break
                 j += 1
             attrs = text[m.start():m2.start()]
-            out[name] = {"file": fn, "body": text[i:j + 1], "attrs": attrs}
+            out[name] = {"file": fn, "body": text[i:j + 1], "attrs": attrs, "whole": text[m.start():j + 1]}
     return out
 
 
@@ -55,7 +55,8 @@ def support_hash(srcs, own_file=None):
         text = open(os.path.join(d, fn)).read()
         for name, s in srcs.items():
             if s["file"] == fn:
-                text = text.replace(s["body"], "{/*" + name + "*/}")
+                text = text.replace(s["whole"], "")  # harnesses are independent of each other
+        text = re.sub(r"\n\s*(///[^\n]*\n\s*)*\n", "\n", text)
         h.update(fn.encode() + b"\0" + text.encode())
     h.update(CLASSIFIER_VERSION.encode())
     return h.hexdigest()
